@@ -281,12 +281,12 @@ def renderEntry (indent : Str) (e : Entry) : Str :=
   indent ++ (e.key ++ ' ' :: '=' :: ' ' :: renderVal e.val)
 
 def renderTable (t : Str × List Entry) : List Str :=
-  ('[' :: (t.1 ++ [']'])) :: (t.2.map (renderEntry [' ', ' '])) ++ [[]]
+  [] :: ('[' :: (t.1 ++ [']'])) :: (t.2.map (renderEntry [' ', ' ']))
 
 /-- Lines of the rendered document (go-toml `Tree.WriteTo`: simple values first, then the tables, each
-followed by an empty line). -/
+preceded by an empty line). -/
 def renderDoc (d : Doc) : List Str :=
-  d.top.map (renderEntry []) ++ [[]] ++ (d.tables.map renderTable).flatten
+  d.top.map (renderEntry []) ++ (d.tables.map renderTable).flatten
 
 def dropSpaces : Str → Str
   | ' ' :: r => dropSpaces r
